@@ -31,8 +31,20 @@ def dec(e):
     return dec_idx(e)
 
 
-def known_f5(op, target):
-    """F5: a full tuple index that selects a single element (scalar result) on an input, after final_setup."""
+def known_f23(spec, ref, an, op):
+    """F23: set_val with `indices` on an input whose connection src_indices select a single element with an int /
+    all-int tuple (NumPy result 0-d): the chain of indexers hits a scalar and the user's index cannot be applied."""
+    if op.get('idx') is None:
+        return False
+    for cn in spec['conns']:
+        if cn['tgt'] == an and cn.get('idx') is not None:
+            src = ref.xvars.get(cn['src']) or ref.uvars.get(cn['src'])
+            flat = cn.get('flat') is True or (cn.get('flat') is None and len(src['shape']) <= 1)
+            base = np.zeros(src['size'] if flat else src['shape'])
+            try:
+                return np.ndim(base[dec(cn['idx'])]) == 0
+            except Exception:
+                return False
     return False
 
 
@@ -206,6 +218,8 @@ def check(case):
         api_name, kind, an = names[op['name'] % len(names)]
         sel, scan, offmag = expected[i]
         tag = f"{kind}{'-prom' if api_name != an else ''}{'-units' if op.get('units') else ''}{'-idx' if op.get('idx') is not None else ''}"
+        if kind == 'conn_in' and known_f23(spec, ref, an, op):
+            tag = 'F23-indices-on-input-with-scalar-src_indices'
         outs = [phases[ph][i] for ph in (0, 1, 2)]
         kinds = [o[0] for o in outs]
         if len(set(kinds)) > 1:
